@@ -123,6 +123,27 @@ func TestEnumerate(t *testing.T) {
 					jobs = append(jobs, job{c})
 				}
 			}
+			// transmit faults: the sending link endpoint refuses the n-th frame of a kind
+			// (for the connection a lost packet), alone and after the first handshake
+			// packet was lost in the network
+			for _, kd := range []struct {
+				dir  int
+				kind string
+			}{{0, "SYN"}, {1, "SYNACK"}, {0, "DATA"}, {1, "DATA"}, {0, "ACK"}, {1, "ACK"}, {0, "FIN"}, {1, "FIN"}} {
+				for _, skip := range []int{0, 1} {
+					c := base
+					c.Cfg.Prog = netsim.Program{Rules: []netsim.Rule{{Dir: kd.dir, Key: kd.kind, Skip: skip, Count: 1, Action: "refuse"}}}
+					jobs = append(jobs, job{c})
+				}
+			}
+			for _, hs := range []struct {
+				dir  int
+				kind string
+			}{{0, "SYN"}, {1, "SYNACK"}} {
+				c := base
+				c.Cfg.Prog = netsim.Program{Rules: []netsim.Rule{{Dir: hs.dir, Key: hs.kind, Count: 1, Action: "drop"}, {Dir: hs.dir, Key: hs.kind, Skip: 1, Count: 1, Action: "refuse"}}}
+				jobs = append(jobs, job{c})
+			}
 			if evid.Thorough() {
 				for i := 0; i < len(keys); i++ {
 					for j := i + 1; j < len(keys); j++ {
@@ -236,6 +257,13 @@ func genCase(rt *rapid.T) Case {
 		if !dupKey {
 			c.Cfg.Prog.Rules = append(c.Cfg.Prog.Rules, r)
 		}
+	}
+	// a transmit fault: the sending link endpoint refuses a frame (WritePacket returns an
+	// error); for the connection that is a lost packet like any other
+	if rapid.SampledFrom([]int{0, 0, 0, 1}).Draw(rt, "refuse") > 0 {
+		c.Cfg.Prog.Rules = append(c.Cfg.Prog.Rules, netsim.Rule{Dir: rapid.IntRange(0, 1).Draw(rt, "rdir"),
+			Key:  rapid.SampledFrom([]string{"DATA", "ACK", "FIN", "SYN", "SYNACK"}).Draw(rt, "rkind"),
+			Skip: rapid.SampledFrom([]int{0, 0, 1, 2}).Draw(rt, "rskip"), Count: rapid.IntRange(1, 2).Draw(rt, "rcount"), Action: "refuse"})
 	}
 	return c
 }
